@@ -60,7 +60,18 @@ func (c12) Gen(r *rand.Rand, tier string, idx int) *core.Plan {
 	p := &core.Plan{World: map[string]int64{}}
 	n := 1 + r.IntN(8)
 	for i := 0; i < n; i++ {
-		p.Ops = append(p.Ops, core.Op{Kind: c12Surfaces[r.IntN(len(c12Surfaces))], I: []int64{int64(r.IntN(1 << 30)), int64(r.IntN(64)), int64(r.IntN(64)), int64(r.IntN(64))}})
+		// fifth value: the plugin manager of a verifier is 0 the scripted one, 1 the real CLI manager over a plugin
+		// directory that does not hold the plugin the signature names, 2 the same with the plugin installed
+		p.Ops = append(p.Ops, core.Op{Kind: c12Surfaces[r.IntN(len(c12Surfaces))], I: []int64{int64(r.IntN(1 << 30)), int64(r.IntN(64)), int64(r.IntN(64)), int64(r.IntN(64)), int64(core.Pick(r, 0, 0, 1, 2))}})
+	}
+	// verifiers are long-lived in half of the plans: one per configuration, asked again and again
+	p.World["live"] = int64(r.IntN(2))
+	if p.World["live"] == 1 && r.IntN(2) == 0 {
+		// ... and then the same request comes more than once
+		k := r.IntN(len(p.Ops))
+		for i := 0; i < 1+r.IntN(2); i++ {
+			p.Ops = append(p.Ops, core.Op{Kind: p.Ops[k].Kind, I: append([]int64{}, p.Ops[k].I...)})
+		}
 	}
 	return p
 }
@@ -194,6 +205,9 @@ func (l c12) Exec(env *core.Env) *core.Result {
 	defer func() { rt.Cur = nil }()
 	var trace []string
 	call := c12Call{res, sim, &trace}
+	liveV := map[string]fullVerifier{}
+	liveMgr := map[int64]*plugin.CLIManager{}
+	_ = liveV
 	sim.Go("victim", func() {
 		for _, op := range p.Ops {
 			rt.Yield("op")
@@ -231,20 +245,51 @@ func (l c12) Exec(env *core.Env) *core.Result {
 					opts.BlobTrustPolicy = world.BlobDoc(world.BlobStatement("bp", level, nil, stores, ids, level != "skip"))
 				}
 				var sp *world.ScriptedPlugin
-				if construction != 3 {
+				cli := op.Int(4) % 3
+				if construction != 3 && cli != 0 {
+					root := filepath.Join(env.Dir, fmt.Sprintf("vplugins%d", cli))
+					if cli == 2 {
+						pd := filepath.Join(root, c02Plugin)
+						os.MkdirAll(pd, 0755)
+						meta := fmt.Sprintf(`{"name":%q,"description":"d","version":"1.0.0","url":"u","supportedContractVersions":["1.0"],"capabilities":["SIGNATURE_VERIFIER.TRUSTED_IDENTITY","SIGNATURE_VERIFIER.REVOCATION_CHECK"]}`, c02Plugin)
+						answer := `{"verificationResults":{"SIGNATURE_VERIFIER.TRUSTED_IDENTITY":{"success":true},"SIGNATURE_VERIFIER.REVOCATION_CHECK":{"success":true}},"processedAttributes":["1000"]}`
+						os.WriteFile(filepath.Join(pd, "notation-"+c02Plugin), simexec.MakeExecutable("script", simexec.Script{
+							"get-plugin-metadata": {{Op: "out", Fd: 1, Data: meta}, {Op: "exit"}},
+							"*":                   {{Op: "out", Fd: 1, Data: string(mutateBytes([]byte(answer), seed, int(b%3)))}, {Op: "exit"}}}), 0755)
+					} else {
+						os.MkdirAll(root, 0755)
+					}
+					if liveMgr[cli] == nil || p.W("live") == 0 {
+						liveMgr[cli] = plugin.NewCLIManager(dir.NewSysFS(root))
+					}
+					opts.PluginManager = liveMgr[cli]
+					res.Probe("verifier_with_the_cli_plugin_manager")
+				} else if construction != 3 {
 					sp = &world.ScriptedPlugin{Meta: pf.GetMetadataResponse{Name: c02Plugin, Description: "d", Version: "1.0.0", URL: "u", SupportedContractVersions: []string{"1.0"},
 						Capabilities: []pf.Capability{pf.CapabilityTrustedIdentityVerifier, pf.CapabilityRevocationCheckVerifier}}}
 					opts.PluginManager = &world.ScriptedManager{Plugins: map[string]pf.Plugin{c02Plugin: sp}}
 				}
-				v, err := verifier.NewVerifierWithOptions(store, opts)
-				if err != nil {
-					// an unusual configuration may be refused, it must not crash
-					continue
+				liveKey := fmt.Sprint(construction, level, cli)
+				v, reused := liveV[liveKey]
+				if reused && p.W("live") == 1 && sp == nil {
+					res.Probe("long_lived_verifier_reused")
+				} else {
+					var err error
+					v, err = verifier.NewVerifierWithOptions(store, opts)
+					if err != nil {
+						// an unusual configuration may be refused, it must not crash
+						continue
+					}
+					liveV[liveKey] = v
 				}
 				format := world.Formats[c%2]
 				var sig []byte
 				entry := (c / 2) % 4
 				switch {
+				case op.Kind == "verifyplugin" && sp == nil && cli != 0 && construction != 3:
+					// the signature names the plugin; the CLI manager finds it (cli 2) or does not (cli 1)
+					sig = validSigs["plug"+format]
+					entry = entry % 2 * 2 // verifier.Verify or notation.Verify
 				case op.Kind == "verifyplugin" && sp != nil:
 					sig = validSigs["plug"+format]
 					if format == world.COSE && c%3 != 0 {
